@@ -1,5 +1,5 @@
 \* spec -> code (thorough): the unconstrained graph, depth 4 (sampled by the harness)
-CONSTANTS MaxObj = 2  MaxLevel = 4  HandFiles <- McHandFiles  Styles <- StylesAll  CopyKinds <- KindsAll  Ops <- OpsAll  Generic <- GenQR
+CONSTANTS MaxObj = 2  MaxLevel = 4  HandFiles <- McHandFilesAll  Styles <- StylesAll  CopyKinds <- KindsAll  Ops <- OpsAll  Generic <- GenQR
 INIT Init
 NEXT Next
 CONSTRAINT Bound
